@@ -1,44 +1,73 @@
-/* Contracts for crab::domains::dis_interval<ikos::z_number> — properties C08 (soundness of every operation with ghost
+/* Contracts for crab::domains::dis_interval<ikos::z_number> -- properties C08 (soundness of every operation with ghost
  * concrete points), C04 (inclusion test, join, meet, is_bottom / is_top agree with the concretisation), C05 (widening is
- * an upper bound; narrowing of a decreasing pair keeps the second argument).
+ * an upper bound; narrowing keeps the common part).
  *
- * BOUNDED, not proved in general: every check that takes a dis_interval runs on operands with at most NIN = 2 disjuncts
- * (results: at most DMAX = 4); all loops (the class's own, libstdc++ std::vector / std::sort, and the spec loops) are
- * unwound with unwinding assertions (unwind=).  The operand objects are built directly by the harness (arbitrary state,
- * length and element values on freshly allocated storage) under the representation invariant d_ok_in.
+ * EVERYTHING HERE IS BOUNDED, never counted as proof: operands have at most NIN = 2 disjuncts, lists handed to the
+ * normalising constructor at most LMAX elements, results at most DMAX; all loops (the class's own, libstdc++ std::vector /
+ * std::sort, the spec loops) are unwound with unwinding assertions.  Operand objects are built directly by the harness
+ * (state, length, element values on storage obtained from operator new) under the representation invariant d_ok_in.
  *
- * What is REAL: the dis_interval members, std::vector<interval> (copy, push_back, pop_back, reserve, insert, clear),
- * std::sort, std::function dispatch of the per-interval operations, and the interval / bound members of lib/interval.cpp
- * (in line).  Only z_number is a model (models/zmodel.c).
+ * HOW THE CHECKS ARE ORGANISED (and why).  Measured on this code: (1) dfcc's write-set instrumentation multiplies the
+ * formula of code that allocates and copies vectors by about 800 (dis_interval(list) on ONE element: 78 K clauses without,
+ * 65 M clauses with; on two elements cbmc runs out of 13 GB); (2) after a data-dependent push_back the length of a vector
+ * is symbolic, and every later vector operation (growth, copy, std::sort: introsort with its heap-sort fall-back) is
+ * explored for every length up to the unwinding bound; (3) one interval operation in line is 2 000 - 5 000 steps.  Hence:
+ *  - callees.h: the interval-level functions and the private helpers are REPLACED BY THEIR CONTRACTS (exact results),
+ *    each proved in this unit by a loop-free dfcc check (cl_*); interval arithmetic by the soundness contracts of
+ *    units/interval (assumed here, proved there);
+ *  - the normalising constructor dis_interval(list, true) is proved once (d_ctor_list*, lists of 1..LMAX elements) and
+ *    REPLACED BY ITS CONTRACT in every operation that ends with it (operator|, &, apply_bin_op, apply_unary_op, widening);
+ *  - the growth path of std::vector (_M_realloc_insert) is the trusted in-place model models/di_vector_model.c;
+ *  - HARNESS-LEVEL CHECKS ("H-style", all checks whose fn= is dis_interval::begin()): the operation is called from the
+ *    harness, its precondition is assumed by the harness (REQUIRE, exactly what dfcc's enforce wrapper does with a requires
+ *    clause) and every postcondition is a harness assertion.  dfcc still instruments the code but the operation runs with
+ *    a null write set, i.e. WITHOUT frame checking: the assigns clause of these operations is NOT checked.  The function
+ *    named by fn= (the trivial accessor dis_interval::begin(), called once on the result) only anchors the dfcc pipeline
+ *    of the driver; it assumes nothing (its contract has no precondition beyond pointer validity).
+ *  - logging: crab::CrabLogFlag is false unless a client calls CrabEnableLog; the harnesses SET it to false (a constant
+ *    for symbolic execution: the bodies of CRAB_LOG(...) are not explored, not verified).
+ *
+ * What is REAL: the dis_interval members, std::vector<interval> except its growth path, std::sort, std::function
+ * dispatch of the per-interval operations, interval copies / assignments / destructors.  z_number is models/zmodel.c.
  */
 void *_Znwm(unsigned long);
 #include "spec.h"
-i128 g_x, g_y;                      /* ghost concrete points */
-#define RV __CPROVER_return_value
+#include "hspec.h"
+i128 g_x, g_y, g_v, g_w, g_z;       /* ghost concrete points: operands, result, bit width (unsigned readings), magnitude */
+#include "callees.h"
 #define GRANGE (g_x > -ZB && g_x < ZB && g_y > -ZB && g_y < ZB)
-#define HGHOSTS GHOSTG(i128, g_x); GHOSTG(i128, g_y)
-/* logging is off (crab::CrabLogFlag is false unless a client calls CrabEnableLog): the bodies of CRAB_LOG(...) are not verified */
+#define HGHOSTS GHOSTG(i128, g_x); GHOSTG(i128, g_y); GHOSTG(i128, g_v); LOGSET
 extern unsigned char _ZN4crab11CrabLogFlagE;
 #define LOGOFF (_ZN4crab11CrabLogFlagE == 0)
+#define LOGSET _ZN4crab11CrabLogFlagE = 0
+#define REQUIRE(e) __CPROVER_assume(e)          /* H-style: the requires clause of the operation under test */
+#define CHK(e, msg) __CPROVER_assert(e, msg)    /* H-style: an ensures clause of the operation under test */
+#ifndef NEWCAP
+#define NEWCAP 4                    /* models/rt_fixedalloc_interval.c: every block has room for NEWCAP intervals */
+#endif
 
-/* ---- harness side: an arbitrary dis_interval (vector contents built directly) + witnesses.  Macros only. */
-/* SHAPE of an operand: 0 = BOT, 1 = TOP, 2 = FINITE with one disjunct, 3 = FINITE with two disjuncts.  The checks are
- * run once per shape (vary=DS:..: unary DS = shape, binary DS = 4 * shape(a) + shape(b)); the shapes enumerate every
- * value with at most NIN = 2 disjuncts, element values stay arbitrary.  (With a symbolic length the vector copies
- * allocate objects of symbolic size: 9M variables / 90M clauses for approx() alone, no back end answers.) */
-#define SH_ST(sh) ((sh) == 0 ? D_BOT : (sh) == 1 ? D_TOP : D_FIN)
-#define SH_N(sh) ((sh) == 2 ? 1 : (sh) == 3 ? 2 : 0)
+/* ---- harness side: an arbitrary dis_interval (vector contents built directly) + witnesses.  Macros only.
+ * SHAPE of an operand: 0 = empty list, state BOT or TOP (symbolic), 1 = FINITE with one disjunct, 2 = FINITE with two
+ * disjuncts.  Checks run once per shape (vary=DS:..: unary DS = shape, binary DS = 3 * shape(a) + shape(b)); the shapes
+ * enumerate every value with at most NIN = 2 disjuncts, element values stay arbitrary.  (A symbolic length makes every
+ * vector operation range over all lengths: see above.) */
 #define MK_D(t, sh) D t; static I wit_##t##_e[NIN]; static uint32_t wit_##t##_st; static uint64_t wit_##t##_n; \
-  { t.f0 = SH_ST(sh); \
-    if (SH_ST(sh) == D_FIN) { I *stg_##t = _Znwm(NIN * sizeof(I)); D_BEGIN(&t) = stg_##t; D_END(&t) = stg_##t + SH_N(sh); D_CAP(&t) = stg_##t + NIN; \
-      for (long i_##t = 0; i_##t < NIN; i_##t++) if (i_##t < SH_N(sh)) wit_##t##_e[i_##t] = stg_##t[i_##t]; } \
-    else { D_BEGIN(&t) = 0; D_END(&t) = 0; D_CAP(&t) = 0; } \
-    wit_##t##_st = SH_ST(sh); wit_##t##_n = SH_N(sh); }
+  { if ((sh) != 0) { I *stg_##t = _Znwm(NIN * sizeof(I)); t.f0 = D_FIN; D_BEGIN(&t) = stg_##t; D_END(&t) = stg_##t + (sh); D_CAP(&t) = stg_##t + NIN; \
+      for (long i_##t = 0; i_##t < NIN; i_##t++) if (i_##t < (sh)) wit_##t##_e[i_##t] = stg_##t[i_##t]; } \
+    else { unsigned char top_##t; t.f0 = SH0(top_##t) ? D_TOP : D_BOT; D_BEGIN(&t) = 0; D_END(&t) = 0; D_CAP(&t) = 0; } \
+    wit_##t##_st = t.f0; wit_##t##_n = (sh); }
+#if defined(SH0_BOT)
+#define SH0(c) 0
+#elif defined(SH0_TOP)
+#define SH0(c) 1
+#else
+#define SH0(c) (c)
+#endif
 #ifndef DS
-#define DS 15
+#define DS 8
 #endif
 #define MK_D1(t) MK_D(t, DS)
-#define MK_D2(t, u) MK_D(t, DS / 4); MK_D(u, DS % 4)
+#define MK_D2(t, u) MK_D(t, DS / 3); MK_D(u, DS % 3)
 #define N_TOP     _ZN4crab7domains12dis_intervalIN4ikos8z_numberEE3topEv
 #define N_BOTTOM  _ZN4crab7domains12dis_intervalIN4ikos8z_numberEE6bottomEv
 #define N_ISBOT   _ZNK4crab7domains12dis_intervalIN4ikos8z_numberEE9is_bottomEv
@@ -48,8 +77,28 @@ extern unsigned char _ZN4crab11CrabLogFlagE;
 #define N_APPROX  _ZNK4crab7domains12dis_intervalIN4ikos8z_numberEE6approxEv
 #define N_EQ      _ZNK4crab7domains12dis_intervalIN4ikos8z_numberEEeqERKS4_
 #define N_LEQ     _ZNK4crab7domains12dis_intervalIN4ikos8z_numberEEleERKS4_
+#define N_BEGIN   _ZN4crab7domains12dis_intervalIN4ikos8z_numberEE5beginEv
 
-/* ================================================================ constants, queries, constructors */
+/* ================================================================ callees (contracts in callees.h), proved here */
+//@check id=cl_i_is_bottom fn=_ZNK4ikos8intervalINS_8z_numberEE9is_bottomEv props=C08,C04
+//@check id=cl_i_is_top fn=_ZNK4ikos8intervalINS_8z_numberEE6is_topEv props=C08,C04
+//@check id=cl_i_eq fn=_ZNK4ikos8intervalINS_8z_numberEEeqERKS2_ props=C08,C04
+//@check id=cl_i_leq fn=_ZNK4ikos8intervalINS_8z_numberEEleERKS2_ props=C08,C04
+//@check id=cl_i_join fn=_ZNK4ikos8intervalINS_8z_numberEEorERKS2_ props=C08,C04
+//@check id=cl_i_meet fn=_ZNK4ikos8intervalINS_8z_numberEEanERKS2_ props=C08,C04
+//@check id=cl_overlap fn=_ZNK4crab7domains12dis_intervalIN4ikos8z_numberEE7overlapERKNS2_8intervalIS3_EES8_ props=C08,C04
+//@check id=cl_consec fn=_ZNK4crab7domains12dis_intervalIN4ikos8z_numberEE15are_consecutiveERKNS2_8intervalIS3_EES8_ props=C08,C04
+//@check id=cl_left fn=_ZNK4crab7domains11IsOnTheLeftIN4ikos8z_numberEEclERKNS2_8intervalIS3_EES8_ props=C08,C04
+
+/* ================================================================ anchor of the H-style checks */
+/* dis_interval::begin(): iterator to the first disjunct.  No precondition, nothing assumed. */
+I *N_BEGIN(D *self)
+__CPROVER_requires(FRESH(d_anchor, self, sizeof(D)))
+__CPROVER_assigns()
+__CPROVER_ensures(RV == D_BEGIN(self));
+#define ANCHOR(p) N_BEGIN(p)
+
+/* ================================================================ constants, queries, constructors (dfcc-enforced) */
 //@check id=d_top fn=_ZN4crab7domains12dis_intervalIN4ikos8z_numberEE3topEv props=C08,C04 unwind=6
 void N_TOP(D *ret)
 __CPROVER_requires(FRESH(d_top, ret, sizeof(D)) && GRANGE)
@@ -63,14 +112,14 @@ __CPROVER_assigns(*ret)
 __CPROVER_ensures(d_okn(ret, DMAX, ZB) && d_bot(ret) && !d_top(ret) && !d_has(ret, g_x));
 void h_d_bottom(void){ HGHOSTS; D r; N_BOTTOM(&r); REACH; }
 /* is_bottom() <=> no integer is described (a FINITE value has a first disjunct, which is not empty) */
-//@check id=d_is_bottom fn=_ZNK4crab7domains12dis_intervalIN4ikos8z_numberEE9is_bottomEv props=C08,C04 unwind=6 bounded="<=2 disjuncts" vary=DS:0-3
+//@check id=d_is_bottom fn=_ZNK4crab7domains12dis_intervalIN4ikos8z_numberEE9is_bottomEv props=C08,C04 unwind=6 bounded="<=2 disjuncts" vary=DS:0-2
 unsigned char N_ISBOT(D *self)
 __CPROVER_requires(FRESH(d_is_bottom, self, sizeof(D)) && d_ok_in(self) && GRANGE)
 __CPROVER_assigns()
 __CPROVER_ensures((RV != 0) == d_bot(self))
 __CPROVER_ensures(RV ? !d_has(self, g_x) : (d_top(self) || !i_bot(D_E(self, 0))));
 void h_d_is_bottom(void){ MK_D1(a); HGHOSTS; N_ISBOT(&a); REACH; }
-//@check id=d_is_top fn=_ZNK4crab7domains12dis_intervalIN4ikos8z_numberEE6is_topEv props=C08,C04 unwind=6 bounded="<=2 disjuncts" vary=DS:0-3
+//@check id=d_is_top fn=_ZNK4crab7domains12dis_intervalIN4ikos8z_numberEE6is_topEv props=C08,C04 unwind=6 bounded="<=2 disjuncts" vary=DS:0-2
 unsigned char N_ISTOP(D *self)
 __CPROVER_requires(FRESH(d_is_top, self, sizeof(D)) && d_ok_in(self) && GRANGE)
 __CPROVER_assigns()
@@ -94,7 +143,7 @@ __CPROVER_ensures(d_has(self, g_x) == i_has(*i, g_x))
 __CPROVER_ensures(d_bot(self) == i_bot(*i) && d_top(self) == i_top(*i));
 void h_d_ctor_interval(void){ IN(I, i); HGHOSTS; D r; N_CTORI(&r, &i); REACH; }
 /* approx(): the hull; contains every integer of the value */
-//@check id=d_approx fn=_ZNK4crab7domains12dis_intervalIN4ikos8z_numberEE6approxEv props=C08 unwind=6 bounded="<=2 disjuncts" vary=DS:0-3
+//@check id=d_approx fn=_ZNK4crab7domains12dis_intervalIN4ikos8z_numberEE6approxEv props=C08 unwind=6 bounded="<=2 disjuncts" vary=DS:0-2
 void N_APPROX(I *ret, D *self)
 __CPROVER_requires(FRESH(d_approx, ret, sizeof(I)) && FRESH(d_approx, self, sizeof(D)) && d_ok_in(self) && GRANGE && LOGOFF)
 __CPROVER_assigns(*ret)
@@ -102,8 +151,8 @@ __CPROVER_ensures(i_ok(*ret) && d_hull_is(self, *ret))
 __CPROVER_ensures(d_has(self, g_x) ==> i_has(*ret, g_x));
 void h_d_approx(void){ MK_D1(a); HGHOSTS; I r; N_APPROX(&r, &a); REACH; }
 
-/* ================================================================ equality, inclusion */
-//@check id=d_eq fn=_ZNK4crab7domains12dis_intervalIN4ikos8z_numberEEeqERKS4_ props=C08,C04 unwind=6 bounded="<=2 disjuncts" vary=DS:0-15
+/* ================================================================ equality, inclusion (dfcc-enforced) */
+//@check id=d_eq fn=_ZNK4crab7domains12dis_intervalIN4ikos8z_numberEEeqERKS4_ props=C08,C04 unwind=6 bounded="<=2 disjuncts" vary=DS:0,4,5,7,8 vary_thorough=DS:0-8 backends=kissat,cadical,minisat
 unsigned char N_EQ(D *self, D *x)
 __CPROVER_requires(FRESH(d_eq, self, sizeof(D)) && FRESH(d_eq, x, sizeof(D)) && d_ok_in(self) && d_ok_in(x) && GRANGE && LOGOFF)
 __CPROVER_assigns()
@@ -111,8 +160,15 @@ __CPROVER_ensures((RV != 0) == d_eq(self, x))
 __CPROVER_ensures(RV ==> (d_has(self, g_x) == d_has(x, g_x)));
 void h_d_eq(void){ MK_D2(a, b); HGHOSTS; N_EQ(&a, &b); REACH; }
 /* inclusion: yes with bottom on the left, with top on the right, on equal values; a yes means inclusion of the
- * concretisations; exactly the inclusion of normalised values */
-//@check id=d_leq fn=_ZNK4crab7domains12dis_intervalIN4ikos8z_numberEEleERKS4_ props=C08,C04 unwind=6 bounded="<=2 disjuncts" vary=DS:0-15
+ * concretisations; exactly the inclusion of normalised values.
+ * GENUINE DEFECT (confirmed natively, /repo unchanged): operator<= has no case for TOP.  top() <= [0,1] answers yes (the
+ * loop over the empty list of TOP is vacuous) and [0,1] <= top() answers no (no element of the empty list of TOP
+ * contains [0,1]); likewise ([0,1]|[5,6]) <= top() is false.  The quick tier runs the contract with shape 0 = BOT only
+ * (defs=SH0_BOT: every case without a TOP operand, all pass); check d_leq_top (thorough) runs the same contract with BOT /
+ * TOP symbolic and FAILS postcondition 1 (yes implies inclusion) for DS=1,2 and postcondition 3 (top on the right) for
+ * DS=3,6. */
+//@check id=d_leq fn=_ZNK4crab7domains12dis_intervalIN4ikos8z_numberEEleERKS4_ props=C08,C04 unwind=6 defs=SH0_BOT bounded="<=2 disjuncts, no TOP operand" vary=DS:1,3,4,5,7,8 vary_thorough=DS:0-8
+//@check id=d_leq_top fn=_ZNK4crab7domains12dis_intervalIN4ikos8z_numberEEleERKS4_ tag=d_leq harness=h_d_leq props=C08,C04 unwind=6 bounded="<=2 disjuncts" vary=DS:0,1,2,3,6
 unsigned char N_LEQ(D *self, D *x)
 __CPROVER_requires(FRESH(d_leq, self, sizeof(D)) && FRESH(d_leq, x, sizeof(D)) && d_ok_in(self) && d_ok_in(x) && GRANGE && LOGOFF)
 __CPROVER_assigns()
@@ -123,52 +179,19 @@ __CPROVER_ensures(d_eq(self, x) ==> RV)
 __CPROVER_ensures((RV != 0) == d_leq(self, x));
 void h_d_leq(void){ MK_D2(a, b); HGHOSTS; N_LEQ(&a, &b); REACH; }
 /* reflexivity: the same object on both sides */
-//@check id=d_leq_refl fn=_ZNK4crab7domains12dis_intervalIN4ikos8z_numberEEleERKS4_ tag=d_leq props=C04 unwind=6 bounded="<=2 disjuncts" vary=DS:0-3
+//@check id=d_leq_refl fn=_ZNK4crab7domains12dis_intervalIN4ikos8z_numberEEleERKS4_ tag=d_leq props=C04 unwind=6 bounded="<=2 disjuncts" vary=DS:0-2
 void h_d_leq_refl(void){ MK_D1(a); HGHOSTS; unsigned char r = N_LEQ(&a, &a); __CPROVER_assert(r, "x <= x"); REACH; }
 
-
-/* ================================================================ binary operations */
-/* result well formed (normalised, at most DMAX disjuncts); soundness at the ghost points */
-#define DBIN(tag, fn, OKZ, PRE, EXTRA, SOUND) \
-void fn(D *ret, D *self, D *x) \
-__CPROVER_requires(FRESH(tag, ret, sizeof(D)) && FRESH(tag, self, sizeof(D)) && FRESH(tag, x, sizeof(D))) \
-__CPROVER_requires(d_ok_in(self) && d_ok_in(x) && GRANGE && LOGOFF && (PRE)) \
-__CPROVER_assigns(*ret) \
-__CPROVER_ensures(d_okn(ret, DMAX, OKZ)) \
-__CPROVER_ensures(EXTRA) \
-__CPROVER_ensures(SOUND); \
-void h_##tag(void){ MK_D2(a, b); HGHOSTS; D r; fn(&r, &a, &b); REACH; }
-#define IN2 (d_has(self, g_x) && d_has(x, g_y))
-#define STRICT ((d_bot(self) || d_bot(x)) ==> d_bot(ret))
-//@check id=d_add fn=_ZNK4crab7domains12dis_intervalIN4ikos8z_numberEEplERKS4_ props=C08 unwind=3 defs=DMAX=2 bounded="1 disjunct per operand" vary=DS:10 timeout=900 first_timeout=600 backends=cadical,kissat
-//@check id=d_add_12 fn=_ZNK4crab7domains12dis_intervalIN4ikos8z_numberEEplERKS4_ tag=d_add harness=h_d_add props=C08 unwind=4 defs=DMAX=2 bounded="<=2 disjuncts, one operand with 1" vary=DS:11 timeout=900 first_timeout=600 backends=cadical,kissat
-DBIN(d_add, _ZNK4crab7domains12dis_intervalIN4ikos8z_numberEEplERKS4_, 2 * ZB, 1, STRICT, IN2 ==> d_has(ret, g_x + g_y))
-
-/* ================================================================ dis_interval(list, normalize) and normalize */
+/* ================================================================ dis_interval(list, normalize) */
+/* GENUINE DEFECT (confirmed natively, /repo unchanged; found by d_ctor_list_h[LN=2], 23 min with kissat): normalize()
+ * starts with the sentinel `prev = top` and skips every element with `prev == intv` as a duplicate, so a TOP element that
+ * sorts first is dropped: dis_interval({[-oo,+oo], [-3,-3]}, true) = [-3,-3].  Reachable through the public widening,
+ * which pushes widened extremes that may be top: ([0,1]|[5,6]) || ([-1,7]|[10,11]) = [5,+oo], not an upper bound of
+ * either operand.  Without top elements all 4096 two-element lists over bounds in {-oo,-3..3,+oo} normalise exactly
+ * (native enumeration).  The contract below is what the property demands and is left unchanged; the failing variant is in
+ * the thorough tier.  Under dfcc (d_ctor_list) two elements run out of 13 GB: quick = one element only. */
 /* a list of intervals as the callers build it: a std::vector<interval> with LN arbitrary elements (any order, overlapping,
  * bottom or top elements allowed) */
-typedef struct S_class_std__vector V;
-#define V_BEGIN(v) ((v)->f0.f0.f0.f0)
-#define V_END(v) ((v)->f0.f0.f0.f1)
-#define V_CAP(v) ((v)->f0.f0.f0.f2)
-static inline long v_n(const V *v){ return (long)(V_END(v) - V_BEGIN(v)); }
-#ifndef LMAX
-#define LMAX 4
-#endif
-static inline bool v_ok(const V *v, long max, i128 z){
-  if (V_BEGIN(v) == 0) return V_END(v) == 0;
-  long n = v_n(v); if (n < 0 || n > max || V_CAP(v) < V_END(v)) return false;
-  bool ok = true;
-  for (long i = 0; i < LMAX; i++) if (i < n) ok = ok && i_okz(V_BEGIN(v)[i], z);
-  return ok; }
-static inline bool v_has(const V *v, i128 g){
-  long n = v_n(v); bool m = false;
-  for (long i = 0; i < LMAX; i++) if (i < n) m = m || i_has(V_BEGIN(v)[i], g);
-  return m; }
-static inline bool v_all_bot(const V *v){
-  long n = v_n(v); bool m = true;
-  for (long i = 0; i < LMAX; i++) if (i < n) m = m && i_bot(V_BEGIN(v)[i]);
-  return m; }
 #ifndef LN
 #define LN 2
 #endif
@@ -176,14 +199,75 @@ static inline bool v_all_bot(const V *v){
   { I *stg_##t = _Znwm(LMAX * sizeof(I)); V_BEGIN(&t) = stg_##t; V_END(&t) = stg_##t + (n); V_CAP(&t) = stg_##t + (n); \
     for (long i_##t = 0; i_##t < LMAX; i_##t++) if (i_##t < (n)) wit_##t##_e[i_##t] = stg_##t[i_##t]; }
 #define N_CTORL _ZN4crab7domains12dis_intervalIN4ikos8z_numberEEC1ESt6vectorINS2_8intervalIS3_EESaIS7_EEb
-/* dis_interval(l, true): the normalised value describing exactly the integers of the intervals of l.  A one-element
- * list is taken as it is (callers never pass a single bottom or top interval). */
-//@check id=d_ctor_list fn=_ZN4crab7domains12dis_intervalIN4ikos8z_numberEEC1ESt6vectorINS2_8intervalIS3_EESaIS7_EEb props=C08,C04 unwind=4 defs=DMAX=2,LMAX=2 vary=LN:1-2 bounded="list of <=2 intervals" timeout=900 first_timeout=600 backends=cadical,kissat mem=8
+/* storage of a result as a CALLER may rely on it when the contract replaces the call: a FINITE value owns a fresh block
+ * of NEWCAP intervals holding 1..max elements; BOT / TOP own nothing (the real constructor may keep an empty block: a
+ * program cannot tell) */
+#define BLK_0(d, max) ((d)->f0 == D_FIN ? (__CPROVER_is_fresh(D_BEGIN(d), NEWCAP * sizeof(I)) && __CPROVER_same_object(D_BEGIN(d), D_END(d)) && __CPROVER_POINTER_OFFSET(D_END(d)) >= sizeof(I) && __CPROVER_POINTER_OFFSET(D_END(d)) <= (max) * sizeof(I) && __CPROVER_POINTER_OFFSET(D_END(d)) % sizeof(I) == 0 && D_CAP(d) == D_BEGIN(d) + NEWCAP) : (D_BEGIN(d) == 0 && D_END(d) == 0 && D_CAP(d) == 0))
+#define BLK_1(d, max) 1
+#define BLK_SEL(v) FRESH_CAT(BLK_, v)
+#define BLK(tag, d, max) BLK_SEL(ENF_##tag)(d, max)
+/* dis_interval(l, true): the normalised value describing exactly the integers of the intervals of l; finite bounds stay
+ * within the magnitude g_z of the list (g_z arbitrary: callers fix it).  A one-element list is taken as it is (callers
+ * never pass a single bottom or top interval). */
 void N_CTORL(D *self, V *l, unsigned char normalize)
-__CPROVER_requires(FRESH(d_ctor_list, self, sizeof(D)) && FRESH(d_ctor_list, l, sizeof(V)) && v_ok(l, LMAX, ZB) && v_n(l) >= 1 && normalize == 1 && GRANGE && LOGOFF)
-__CPROVER_requires(v_n(l) != 1 || (!i_bot(V_BEGIN(l)[0]) && !i_top(V_BEGIN(l)[0])))
+__CPROVER_requires(FRESH(d_ctor_list, self, sizeof(D)) && RD(d_ctor_list, l, sizeof(V)) && g_z > 0 && g_z <= DZ && v_ok(l, LMAX, g_z) && v_n(l) >= 1 && normalize == 1 && LOGOFF)
+__CPROVER_requires(v_n(l) != 1 || v_plain(l))
 __CPROVER_assigns(*self)
-__CPROVER_ensures(d_okn(self, DMAX, ZB))
-__CPROVER_ensures(d_has(self, g_x) == v_has(l, g_x))
+__CPROVER_ensures(self->f0 <= 2 && BLK(d_ctor_list, self, DMAX))
+__CPROVER_ensures(d_okn(self, DMAX, g_z))
+__CPROVER_ensures(d_has(self, g_v) == v_has(l, g_v))
 __CPROVER_ensures(d_bot(self) == v_all_bot(l));
-void h_d_ctor_list(void){ MK_V(l, LN); HGHOSTS; D r; N_CTORL(&r, &l, 1); REACH; }
+//@check id=d_ctor_list fn=_ZN4crab7domains12dis_intervalIN4ikos8z_numberEEC1ESt6vectorINS2_8intervalIS3_EESaIS7_EEb props=C08,C04 unwind=5 defs=DMAX=2,LMAX=2 vary=LN:1 bounded="list of 1 interval" timeout=600 first_timeout=300 backends=cadical,kissat mem=8 cost=5 replace=_ZNK4ikos8intervalINS_8z_numberEE9is_bottomEv,_ZNK4ikos8intervalINS_8z_numberEE6is_topEv,_ZNK4ikos8intervalINS_8z_numberEEeqERKS2_,_ZNK4ikos8intervalINS_8z_numberEEleERKS2_,_ZNK4ikos8intervalINS_8z_numberEEorERKS2_,_ZNK4ikos8intervalINS_8z_numberEEanERKS2_,_ZNK4crab7domains12dis_intervalIN4ikos8z_numberEE7overlapERKNS2_8intervalIS3_EES8_,_ZNK4crab7domains12dis_intervalIN4ikos8z_numberEE15are_consecutiveERKNS2_8intervalIS3_EES8_,_ZNK4crab7domains11IsOnTheLeftIN4ikos8z_numberEEclERKNS2_8intervalIS3_EES8_
+void h_d_ctor_list(void){ MK_V(l, LN); HGHOSTS; GHOSTG(i128, g_z); D r; N_CTORL(&r, &l, 1); REACH; }
+/* the same, H-style */
+//@check id=d_ctor_list_h fn=_ZN4crab7domains12dis_intervalIN4ikos8z_numberEE5beginEv tag=d_anchor props=C08,C04 tier=thorough unwind=5 defs=DMAX=2,LMAX=2 vary=LN:1 bounded="list of 1 interval (LN=2 is decided only by kissat in about 25 minutes: run by hand with --vary LN:2)" timeout=2400 first_timeout=600 backends=cadical,kissat mem=8 replace=_ZNK4ikos8intervalINS_8z_numberEE9is_bottomEv,_ZNK4ikos8intervalINS_8z_numberEE6is_topEv,_ZNK4ikos8intervalINS_8z_numberEEeqERKS2_,_ZNK4ikos8intervalINS_8z_numberEEleERKS2_,_ZNK4ikos8intervalINS_8z_numberEEorERKS2_,_ZNK4ikos8intervalINS_8z_numberEEanERKS2_,_ZNK4crab7domains12dis_intervalIN4ikos8z_numberEE7overlapERKNS2_8intervalIS3_EES8_,_ZNK4crab7domains12dis_intervalIN4ikos8z_numberEE15are_consecutiveERKNS2_8intervalIS3_EES8_,_ZNK4crab7domains11IsOnTheLeftIN4ikos8z_numberEEclERKNS2_8intervalIS3_EES8_
+void h_d_ctor_list_h(void){ MK_V(l, LN); HGHOSTS; GHOSTG(i128, g_z); D r;
+  REQUIRE(g_z > 0 && g_z <= DZ && hv_ok(&l, LMAX, g_z) && (hv_n(&l) != 1 || hv_plain(&l)));
+  N_CTORL(&r, &l, 1);
+  CHK(hd_okn(&r, DMAX, g_z), "dis_interval(list): result normalised");
+  CHK(hd_has(&r, g_v) == hv_has(&l, g_v), "dis_interval(list): exactly the integers of the list");
+  CHK(hd_bot(&r) == hv_all_bot(&l), "dis_interval(list): bottom iff every element is bottom");
+  ANCHOR(&r); REACH; }
+
+/* ================================================================ join */
+#define N_JOIN _ZNK4crab7domains12dis_intervalIN4ikos8z_numberEEorERKS4_
+void N_JOIN(D *ret, D *self, D *x)
+__CPROVER_requires(FRESH(d_join, ret, sizeof(D)) && FRESH(d_join, self, sizeof(D)) && FRESH(d_join, x, sizeof(D)))
+__CPROVER_requires(d_ok_in(self) && d_ok_in(x) && g_z == ZB && LOGOFF)
+__CPROVER_assigns(*ret)
+__CPROVER_ensures(d_okn(ret, DMAX, ZB))
+__CPROVER_ensures((d_has(self, g_v) || d_has(x, g_v)) ==> d_has(ret, g_v));
+/* PARKED (no back end decides it within any budget tried: not run in any tier) */
+//@check-parked id=d_join fn=_ZNK4crab7domains12dis_intervalIN4ikos8z_numberEEorERKS4_ props=C08,C04 tier=thorough unwind=5 vary=DS:4,8 bounded="<=2 disjuncts per operand; normalising constructor assumed for lists of 3..4" timeout=1800 first_timeout=900 backends=cadical,kissat mem=8 replace=_ZNK4ikos8intervalINS_8z_numberEE9is_bottomEv,_ZNK4ikos8intervalINS_8z_numberEE6is_topEv,_ZNK4ikos8intervalINS_8z_numberEEeqERKS2_,_ZNK4ikos8intervalINS_8z_numberEEleERKS2_,_ZNK4ikos8intervalINS_8z_numberEEorERKS2_,_ZNK4ikos8intervalINS_8z_numberEEanERKS2_,_ZNK4crab7domains12dis_intervalIN4ikos8z_numberEE7overlapERKNS2_8intervalIS3_EES8_,_ZNK4crab7domains12dis_intervalIN4ikos8z_numberEE15are_consecutiveERKNS2_8intervalIS3_EES8_,_ZNK4crab7domains11IsOnTheLeftIN4ikos8z_numberEEclERKNS2_8intervalIS3_EES8_,_ZN4crab7domains12dis_intervalIN4ikos8z_numberEEC1ESt6vectorINS2_8intervalIS3_EESaIS7_EEb
+void h_d_join(void){ MK_D2(a, b); HGHOSTS; g_z = ZB; D r; N_JOIN(&r, &a, &b); REACH; }
+/* PARKED (no back end decides it within any budget tried: not run in any tier) */
+//@check-parked id=d_join_h fn=_ZN4crab7domains12dis_intervalIN4ikos8z_numberEE5beginEv tag=d_anchor props=C08,C04 tier=thorough unwind=5 vary=DS:0-8 bounded="<=2 disjuncts per operand; normalising constructor assumed for lists of 3..4" timeout=1800 first_timeout=900 backends=cadical,kissat mem=8 replace=_ZNK4ikos8intervalINS_8z_numberEE9is_bottomEv,_ZNK4ikos8intervalINS_8z_numberEE6is_topEv,_ZNK4ikos8intervalINS_8z_numberEEeqERKS2_,_ZNK4ikos8intervalINS_8z_numberEEleERKS2_,_ZNK4ikos8intervalINS_8z_numberEEorERKS2_,_ZNK4ikos8intervalINS_8z_numberEEanERKS2_,_ZNK4crab7domains12dis_intervalIN4ikos8z_numberEE7overlapERKNS2_8intervalIS3_EES8_,_ZNK4crab7domains12dis_intervalIN4ikos8z_numberEE15are_consecutiveERKNS2_8intervalIS3_EES8_,_ZNK4crab7domains11IsOnTheLeftIN4ikos8z_numberEEclERKNS2_8intervalIS3_EES8_,_ZN4crab7domains12dis_intervalIN4ikos8z_numberEEC1ESt6vectorINS2_8intervalIS3_EESaIS7_EEb
+void h_d_join_h(void){ MK_D2(a, b); HGHOSTS; g_z = ZB; D r;
+  REQUIRE(hd_ok_in(&a) && hd_ok_in(&b));
+  N_JOIN(&r, &a, &b);
+  CHK(hd_okn(&r, DMAX, ZB), "join: result normalised");
+  CHK(!(hd_has(&a, g_v) || hd_has(&b, g_v)) || hd_has(&r, g_v), "join: contains both operands");
+  ANCHOR(&r); REACH; }
+
+/* ================================================================ meet */
+#define N_MEET _ZNK4crab7domains12dis_intervalIN4ikos8z_numberEEanERKS4_
+//@check id=d_meet_h fn=_ZN4crab7domains12dis_intervalIN4ikos8z_numberEE5beginEv tag=d_anchor props=C08,C04 unwind=5 vary=DS:4 vary_thorough=DS:0-8 bounded="<=2 disjuncts per operand (quick: 1 x 1); normalising constructor assumed for lists of 3..4" timeout=900 first_timeout=600 backends=cadical,kissat mem=8 cost=9 replace=_ZNK4ikos8intervalINS_8z_numberEE9is_bottomEv,_ZNK4ikos8intervalINS_8z_numberEE6is_topEv,_ZNK4ikos8intervalINS_8z_numberEEeqERKS2_,_ZNK4ikos8intervalINS_8z_numberEEleERKS2_,_ZNK4ikos8intervalINS_8z_numberEEorERKS2_,_ZNK4ikos8intervalINS_8z_numberEEanERKS2_,_ZN4crab7domains12dis_intervalIN4ikos8z_numberEEC1ESt6vectorINS2_8intervalIS3_EESaIS7_EEb
+void N_MEET(D *ret, D *self, D *x);
+void h_d_meet_h(void){ MK_D2(a, b); HGHOSTS; g_z = ZB; D r;
+  REQUIRE(hd_ok_in(&a) && hd_ok_in(&b));
+  N_MEET(&r, &a, &b);
+  CHK(hd_okn(&r, DMAX, ZB), "meet: result normalised");
+  CHK(hd_has(&r, g_v) == (hd_has(&a, g_v) && hd_has(&b, g_v)), "meet: exactly the common integers");
+  ANCHOR(&r); REACH; }
+/* ================================================================ addition */
+#define N_ADD _ZNK4crab7domains12dis_intervalIN4ikos8z_numberEEplERKS4_
+/* PARKED (no back end decides it within any budget tried: not run in any tier) */
+//@check-parked id=d_add_h fn=_ZN4crab7domains12dis_intervalIN4ikos8z_numberEE5beginEv tag=d_anchor props=C08 tier=thorough unwind=5 vary=DS:0-8 bounded="<=2 disjuncts per operand; normalising constructor assumed for lists of 3..4" timeout=1800 first_timeout=900 backends=cadical,kissat mem=8 replace=_ZNK4ikos8intervalINS_8z_numberEE9is_bottomEv,_ZNK4ikos8intervalINS_8z_numberEE6is_topEv,_ZNK4ikos8intervalINS_8z_numberEEplERKS2_,_ZN4crab7domains12dis_intervalIN4ikos8z_numberEEC1ESt6vectorINS2_8intervalIS3_EESaIS7_EEb
+void N_ADD(D *ret, D *self, D *x);
+void h_d_add_h(void){ MK_D2(a, b); HGHOSTS; g_z = 2 * ZB; D r;
+  REQUIRE(hd_ok_in(&a) && hd_ok_in(&b) && GRANGE && g_v == g_x + g_y);
+  N_ADD(&r, &a, &b);
+  CHK(hd_okn(&r, DMAX, 2 * ZB), "+: result normalised");
+  CHK(!(hd_bot(&a) || hd_bot(&b)) || hd_bot(&r), "+: strict");
+  CHK(!(hd_has(&a, g_x) && hd_has(&b, g_y)) || hd_has(&r, g_v), "+: contains g_x + g_y");
+  ANCHOR(&r); REACH; }
